@@ -234,7 +234,11 @@ def termUpCont (f : Nat) (root : Val) (sp : Pos) (rl : Bool) (found : Str) (idx 
     | some ni, some nv =>
       if ni.isEmpty then .error .Unsupported else
       .ok (root, { parent := cur.parent, nameIdx := some ni, value := nv, found := found ++ slash ++ ni, notFound := Option.none })
-    | Option.none, _ => .error .TypeError
+    | Option.none, some nv =>
+      if cur.isFound then
+        .ok (root, { parent := cur.parent, nameIdx := Option.none, value := nv, found := cur.found, notFound := Option.none })
+      else .error .TypeError
+    | Option.none, Option.none => .error .TypeError
     | _, Option.none => .error .Unsupported
 
 theorem term_up_step (f : Nat) (root : Val) (sp : Pos) (entry rl : Bool) (par : PRef) (found tok : Str) (idx : Idx)
